@@ -27,7 +27,7 @@ import (
 
 type Fault struct {
 	Err     int    `json:"err,omitempty"`     // error code placed in the operation's error field
-	Field   string `json:"field,omitempty"`   // which error field: "partition" (default), "topic"
+	Field   string `json:"field,omitempty"`   // which error field: "partition" (default), "topic"; Fetch v7+: "top", "top+data" (response level)
 	Cut     *int   `json:"cut,omitempty"`     // deliver only this many bytes of the response frame
 	DelayMs int    `json:"delayMs,omitempty"` // delay the response
 	Chunks  []int  `json:"chunks,omitempty"`  // deliver the response in pieces
@@ -35,7 +35,15 @@ type Fault struct {
 	StallMs int    `json:"stallMs,omitempty"`
 	Corr    int    `json:"corr,omitempty"`   // answer with correlation id = the request's + Corr (a framing error for the client)
 	Report  bool   `json:"report,omitempty"` // the operation is expected to report the injected code
+	// Fragmentation (no fault for the client): the complete frame is delivered in pieces, each one written only after
+	// the client took the previous one from the socket, so that the client's buffered reader sees exactly these pieces.
+	Splits   []int `json:"splits,omitempty"`   // byte positions of the frame at which a new piece starts (ascending)
+	Piece    int   `json:"piece,omitempty"`    // > 0: from position From on, pieces of this many bytes
+	From     int   `json:"from,omitempty"`
+	HoldRest bool  `json:"holdRest,omitempty"` // what follows the first piece is written once the next request has arrived (pipelined use)
 }
+
+func (f *Fault) fragmented() bool { return f != nil && (len(f.Splits) > 0 || f.Piece > 0) }
 
 type Op struct {
 	O          int    `json:"o"`
@@ -46,6 +54,17 @@ type Op struct {
 	DeadlineMs int    `json:"deadlineMs,omitempty"`
 	SleepMs    int    `json:"sleepMs,omitempty"`   // pause before the operation starts
 	HoldReqMs  int    `json:"holdReqMs,omitempty"` // pause inside doRequest (write lock held), so that other callers queue up
+	AfterPiece int    `json:"afterPiece,omitempty"` // start once the client took the first piece of this operation's (fragmented) response
+}
+
+// RecSpec describes one stored record of a scenario with its own data: lengths of key / value (-1: null) and headers.
+type RecSpec struct {
+	Off int64 `json:"off"`
+	K   int   `json:"k"`
+	V   int   `json:"v"`
+	Hn  int   `json:"hn,omitempty"` // number of headers
+	Hk  int   `json:"hk,omitempty"` // length of every header key
+	Hv  int   `json:"hv,omitempty"` // length of every header value (-1: null)
 }
 
 type Script struct {
@@ -54,6 +73,7 @@ type Script struct {
 	Versions map[string]int `json:"versions"`
 	Ops      []Op           `json:"ops"`
 	Codec    int            `json:"codec,omitempty"`
+	Data     [][]RecSpec    `json:"data,omitempty"` // the partition's batches (default: 12 small records in batches of 4)
 }
 
 const topic = "t"
@@ -77,7 +97,9 @@ type run struct {
 	conn      *kafka.Conn
 	mu        sync.Mutex
 	gids      map[uint64]int
-	byTag     map[string]*Op // request signature -> op (for fault placement and reply events)
+	byTag     map[string][]*Op // request signature -> ops in script order (for fault placement and reply events)
+	gates     map[int]chan struct{}
+	gateOnce  map[int]*sync.Once
 	frameLen  map[int]int
 	lastYield map[int]string
 	started   bool
@@ -182,6 +204,43 @@ func valueOf(off int64) []byte {
 	return []byte(fmt.Sprintf("rec-%d-%s", off, strings.Repeat("v", int(off%7))))
 }
 
+// fill returns n bytes that depend on the record and the field (nil for n < 0).
+func fill(tag string, off int64, n int) []byte {
+	if n < 0 {
+		return nil
+	}
+	pat := fmt.Sprintf("%s%d|", tag, off)
+	out := make([]byte, n)
+	for i := range out {
+		out[i] = pat[i%len(pat)]
+	}
+	return out
+}
+
+func specRec(x RecSpec) krec.Rec {
+	r := krec.Rec{Offset: x.Off, TsMs: tsOf(int(x.Off)), Key: fill("k", x.Off, x.K), Value: fill("v", x.Off, x.V)}
+	for h := 0; h < x.Hn; h++ {
+		r.Headers = append(r.Headers, krec.Hdr{Key: string(fill(fmt.Sprintf("h%d.", h), x.Off, x.Hk)), Value: fill(fmt.Sprintf("w%d.", h), x.Off, x.Hv)})
+	}
+	return r
+}
+
+// sameMessage compares a message returned by the library with the stored record.
+func sameMessage(m kafka.Message, want krec.Rec) bool {
+	if m.Offset != want.Offset || m.Time.UnixMilli() != want.TsMs || len(m.Headers) != len(want.Headers) {
+		return false
+	}
+	if string(m.Key) != string(want.Key) || string(m.Value) != string(want.Value) {
+		return false
+	}
+	for i, h := range m.Headers {
+		if h.Key != want.Headers[i].Key || string(h.Value) != string(want.Headers[i].Value) {
+			return false
+		}
+	}
+	return true
+}
+
 // newCluster builds the (deterministic) cluster every scenario starts from.
 func newCluster(sc *Script) (*fakenet.Net, *fakekafka.Cluster) {
 	n := fakenet.NewNet()
@@ -197,11 +256,20 @@ func newCluster(sc *Script) (*fakenet.Net, *fakekafka.Cluster) {
 	p := t.Partitions[0]
 	p.Leader, p.Replicas, p.ISR = 1, []int{1, 2}, []int{1, 2}
 	var recs []krec.Rec
-	for i := 0; i < nrecs; i++ {
+	for i := 0; i < nrecs && sc.Data == nil; i++ {
 		recs = append(recs, krec.Rec{Offset: int64(i), TsMs: tsOf(i), Key: []byte(fmt.Sprintf("k%d", i)), Value: valueOf(int64(i))})
 		if len(recs) == 4 {
 			p.AppendV2(recs, sc.Codec)
 			recs = nil
+		}
+	}
+	for _, b := range sc.Data {
+		recs = nil
+		for _, x := range b {
+			recs = append(recs, specRec(x))
+		}
+		if len(recs) > 0 {
+			p.AppendV2(recs, sc.Codec)
 		}
 	}
 	for i := 1; i <= 6; i++ {
@@ -289,7 +357,9 @@ func (r *run) faultReply(req *fakekafka.Request, op *Op) *fakekafka.Reply {
 			p.ListErr = int16(f.Err)
 			defer func() { c.Lock(); p.ListErr = 0; c.Unlock() }()
 		case fakekafka.Fetch:
-			p.FetchPlan = append([]fakekafka.FetchFault{{Err: int16(f.Err)}}, p.FetchPlan...)
+			if f.Field != "top" && f.Field != "top+data" {
+				p.FetchPlan = append([]fakekafka.FetchFault{{Err: int16(f.Err)}}, p.FetchPlan...)
+			}
 		case fakekafka.Produce:
 			p.ProducePlan = append([]fakekafka.ProduceFault{{Err: int16(f.Err)}}, p.ProducePlan...)
 		case fakekafka.Metadata:
@@ -313,6 +383,21 @@ func (r *run) faultReply(req *fakekafka.Request, op *Op) *fakekafka.Reply {
 		// the error code of an ApiVersions response is its first field; the list of versions follows it all the same
 		rep.Body = append([]byte{byte(uint16(f.Err) >> 8), byte(f.Err)}, rep.Body[2:]...)
 	}
+	if req.ApiKey == fakekafka.Fetch && f.Err != 0 && (f.Field == "top" || f.Field == "top+data") && req.Version >= 7 && len(rep.Body) >= 10 {
+		// the response-level error code of Fetch v7+ follows the throttle time.  "top": throttle, error code, session
+		// id, empty topic array (what a broker sends); "top+data": the partition data is left in place behind the
+		// error code (the tail the client has to skip is longer)
+		var w kwire.W
+		w.Raw(rep.Body[:4])
+		w.I16(int16(f.Err))
+		w.I32(0)
+		if f.Field == "top" {
+			w.ArrayLen(0)
+		} else {
+			w.Raw(rep.Body[10:])
+		}
+		rep.Body = w.B
+	}
 	if f.Cut != nil {
 		rep.CutAt = *f.Cut
 	}
@@ -330,6 +415,107 @@ func (r *run) faultReply(req *fakekafka.Request, op *Op) *fakekafka.Reply {
 		rep.CorrID = &id
 	}
 	return &rep
+}
+
+// openGate lets the operations waiting for the first piece of o's response start.
+func (r *run) openGate(o int) {
+	if once := r.gateOnce[o]; once != nil {
+		once.Do(func() { close(r.gates[o]) })
+	}
+}
+
+// deliverPieces writes the complete response frame in pieces and records how far the delivery got: "reply" (nothing
+// delivered yet), "replyhdr" (size and correlation id are there), "replyrest" (all of it), each right before the write
+// that makes it true.  Two ways of pacing:
+//   - fragmentation faults (Splits / Piece): a piece is written when the client has taken everything written before from
+//     the socket: its buffered reader then holds exactly the pieces delivered so far, whatever the scheduling, and the
+//     position at which it has to wait for more is the split position;
+//   - Chunks: short pauses between the pieces (time for the other goroutines of the scenario to interleave).
+func (r *run) deliverPieces(req *fakekafka.Request, rep *fakekafka.Reply, op *Op, ev trace.Event) *fakekafka.Reply {
+	f := op.Fault
+	conn := req.Conn
+	if rep.Delay > 0 {
+		select {
+		case <-time.After(rep.Delay):
+		case <-conn.Done():
+		}
+	}
+	if conn.IsClosed() {
+		return &fakekafka.Reply{Close: true, CutAt: -1}
+	}
+	id := req.CorrID
+	if rep.CorrID != nil {
+		id = *rep.CorrID
+	}
+	var w kwire.W
+	w.I32(id)
+	w.Raw(rep.Body)
+	frame := kwire.Frame(w.B)
+	paced := !f.fragmented()
+	var cuts []int
+	if paced {
+		k := 0
+		for _, n := range f.Chunks {
+			k += n
+			cuts = append(cuts, k)
+		}
+	} else {
+		cuts = append(cuts, f.Splits...)
+		if f.Piece > 0 {
+			for k := f.From; k < len(frame); k += f.Piece {
+				cuts = append(cuts, k)
+			}
+		}
+	}
+	taken := func() {
+		lim := time.Now().Add(1500 * time.Millisecond)
+		for n := 0; conn.PeerUnread() > 0 && !conn.IsClosed() && time.Now().Before(lim); n++ {
+			if n < 20 {
+				runtime.Gosched()
+			} else {
+				time.Sleep(20 * time.Microsecond)
+			}
+		}
+	}
+	o, cid := ev["o"], int(req.CorrID)
+	ev["cut"], ev["pieces"] = 0, true
+	r.rec.Emit(ev)
+	hdr := false
+	write := func(from, to int) {
+		if to >= len(frame) {
+			r.rec.Emit(trace.Event{"ev": "replyrest", "o": o, "id": cid})
+		} else if to >= 8 && !hdr {
+			hdr = true
+			r.rec.Emit(trace.Event{"ev": "replyhdr", "o": o, "id": cid})
+		}
+		conn.Write(frame[from:to])
+	}
+	pos, first := 0, true
+	for _, k := range cuts {
+		if k <= pos || k >= len(frame) {
+			continue
+		}
+		write(pos, k)
+		pos = k
+		if paced {
+			time.Sleep(2 * time.Millisecond)
+			continue
+		}
+		taken()
+		if first {
+			first = false
+			r.openGate(op.O)
+			if f.HoldRest {
+				lim := time.Now().Add(1500 * time.Millisecond)
+				for conn.BytesUnread() == 0 && !conn.IsClosed() && time.Now().Before(lim) {
+					time.Sleep(50 * time.Microsecond)
+				}
+			}
+		}
+	}
+	r.openGate(op.O)
+	write(pos, len(frame))
+	return &fakekafka.Reply{None: true, CutAt: -1}
 }
 
 func metadataTopicError(req *fakekafka.Request, code int16) fakekafka.Reply {
@@ -402,7 +588,20 @@ func (r *run) exec(conn *kafka.Conn, cl *fakekafka.Cluster, op *Op) (res result)
 	cl.Lock()
 	p := cl.Part(topic, 0)
 	hw, start := p.HW, p.LogStart
+	var stored []krec.Rec
+	if r.sc != nil && r.sc.Data != nil {
+		stored = p.AllRecords()
+	}
 	cl.Unlock()
+	// the stored record at (or, in a log with gaps, first after) an offset
+	storedFrom := func(off int64) []krec.Rec {
+		for i := range stored {
+			if stored[i].Offset >= off {
+				return stored[i:]
+			}
+		}
+		return nil
+	}
 	switch op.Kind {
 	case "lastOffset":
 		v, err := conn.ReadLastOffset()
@@ -482,11 +681,23 @@ func (r *run) exec(conn *kafka.Conn, cl *fakekafka.Cluster, op *Op) (res result)
 				rerr = err
 				break
 			}
-			if m.Offset != next || string(m.Value) != string(valueOf(m.Offset)) || m.Time.UnixMilli() != tsOf(int(m.Offset)) {
+			if stored != nil {
+				// scenario with its own data: the n-th message is the n-th stored record from the requested offset on
+				if w := storedFrom(from); n >= len(w) || !sameMessage(m, w[n]) {
+					own = false
+				}
+			} else if m.Offset != next || string(m.Value) != string(valueOf(m.Offset)) || m.Time.UnixMilli() != tsOf(int(m.Offset)) {
 				own = false
 			}
 			next = m.Offset + 1
 			n++
+		}
+		if stored != nil && n > 0 {
+			if w := storedFrom(from); n == len(w) {
+				next = hw // every stored record was returned
+			} else if next == hw {
+				next = -1
+			}
 		}
 		cerr := b.Close()
 		if cerr != nil {
@@ -521,6 +732,10 @@ func (r *run) exec(conn *kafka.Conn, cl *fakekafka.Cluster, op *Op) (res result)
 			m, err := b.ReadMessage()
 			rerr = err
 			res.own = err == nil && m.Offset == from && string(m.Value) == string(valueOf(m.Offset))
+			if stored != nil {
+				w := storedFrom(from)
+				res.own = err == nil && len(w) > 0 && sameMessage(m, w[0])
+			}
 			res.nrec = 1
 		}
 		cerr := b.Close()
@@ -569,11 +784,14 @@ func dial(n *fakenet.Net) (*kafka.Conn, *fakenet.Conn, error) {
 
 // setup builds cluster, connection and the fault-injecting intercept for a script.
 func setup(sc *Script) (*run, *fakenet.Conn, error) {
-	r := &run{sc: sc, rec: trace.New(), gids: map[uint64]int{}, byTag: map[string]*Op{}, lastYield: map[int]string{}, frameLen: map[int]int{}, used: map[int]bool{}}
+	r := &run{sc: sc, rec: trace.New(), gids: map[uint64]int{}, byTag: map[string][]*Op{}, gates: map[int]chan struct{}{}, gateOnce: map[int]*sync.Once{}, lastYield: map[int]string{}, frameLen: map[int]int{}, used: map[int]bool{}}
 	r.net, r.cl = newCluster(sc)
 	for i := range sc.Ops {
 		op := &sc.Ops[i]
-		r.byTag[opSignature(op)] = op
+		r.byTag[opSignature(op)] = append(r.byTag[opSignature(op)], op)
+		if op.Fault.fragmented() {
+			r.gates[op.O], r.gateOnce[op.O] = make(chan struct{}), new(sync.Once)
+		}
 	}
 	conn, nc, err := dial(r.net)
 	if err != nil {
@@ -588,8 +806,21 @@ func setup(sc *Script) (*run, *fakenet.Conn, error) {
 			req.Conn.OnClose = func() { r.rec.Emit(trace.Event{"ev": "peerclosed"}) }
 		}
 		sig := signature(req)
-		op := r.byTag[sig]
+		var op *Op
 		r.mu.Lock()
+		if list := r.byTag[sig]; len(list) > 0 {
+			// the k-th request with a signature belongs to the k-th operation with it; with one such operation (every
+			// scenario but the fragmentation ones) a further request with the same signature belongs to none
+			op = list[len(list)-1]
+			if len(list) > 1 {
+				for _, x := range list {
+					if !r.used[x.O] {
+						op = x
+						break
+					}
+				}
+			}
+		}
 		if !r.started || (op != nil && r.used[op.O]) {
 			op = nil // warm-up traffic, or a second request with the same signature
 		}
@@ -620,6 +851,10 @@ func setup(sc *Script) (*run, *fakenet.Conn, error) {
 			"kerr": kerr, "cut": cut, "len": flen, "unread": unread, "sig": sig, "rid": int(req.CorrID)}
 		if rep.CorrID != nil {
 			ev["rid"] = int(*rep.CorrID)
+		}
+		if op != nil && (op.Fault.fragmented() || (op.Fault != nil && len(rep.Chunks) > 0)) && rep.CutAt < 0 && rep.StallAt == 0 && !rep.None && !rep.Close && rep.Raw == nil && rep.Gate == nil && rep.Lazy == nil {
+			// delivered here, piece by piece, so that the trace says how much of the frame had been delivered when
+			return r.deliverPieces(req, rep, op, ev)
 		}
 		rep.OnSend = func() { r.rec.Emit(ev) }
 		if rep.StallAt > 0 {
@@ -657,7 +892,7 @@ func Run(sc *Script) []trace.Event {
 	ops := make([]interface{}, len(sc.Ops))
 	for i := range sc.Ops {
 		op := &sc.Ops[i]
-		f := map[string]interface{}{"err": 0, "cut": -1, "report": false, "stall": 0, "corr": 0}
+		f := map[string]interface{}{"err": 0, "cut": -1, "report": false, "stall": 0, "corr": 0, "split": op.Fault.fragmented()}
 		if op.Fault != nil {
 			f["stall"] = op.Fault.Stall
 			f["corr"] = op.Fault.Corr
@@ -700,9 +935,18 @@ func Run(sc *Script) []trace.Event {
 
 	// baseline: what each operation (with its own injected fault) returns on a fresh connection to an identical cluster
 	fresh := map[int]result{}
-	if sc.Kind == "c11" {
+	concurrent := sc.Kind == "c06" || sc.Kind == "c11p"
+	if sc.Kind == "c11" || sc.Kind == "c11p" {
 		for i := range sc.Ops {
-			sub := &Script{ID: sc.ID, Kind: sc.Kind, Versions: sc.Versions, Codec: sc.Codec, Ops: []Op{sc.Ops[i]}}
+			// (alone, and with its response delivered in one piece: fragmentation is not a fault)
+			one := sc.Ops[i]
+			one.AfterPiece = 0
+			if one.Fault.fragmented() {
+				f := *one.Fault
+				f.Splits, f.Piece, f.HoldRest = nil, 0, false
+				one.Fault = &f
+			}
+			sub := &Script{ID: sc.ID, Kind: "c11", Versions: sc.Versions, Codec: sc.Codec, Data: sc.Data, Ops: []Op{one}}
 			fr, _, err := setup(sub)
 			if err != nil {
 				continue
@@ -716,9 +960,9 @@ func Run(sc *Script) []trace.Event {
 
 	emitEnd := func(op *Op, res result) {
 		e := trace.Event{"ev": "opend", "o": op.O, "kind": op.Kind, "result": res.cls, "code": res.code, "own": res.own,
-			"info": res.info, "nrec": res.nrec, "freshResult": "", "freshOwn": false, "closed": nc.IsClosed()}
+			"info": res.info, "nrec": res.nrec, "freshResult": "", "freshOwn": false, "freshNrec": 0, "closed": nc.IsClosed()}
 		if f, ok := fresh[op.O]; ok {
-			e["freshResult"], e["freshOwn"] = f.cls, f.own
+			e["freshResult"], e["freshOwn"], e["freshNrec"] = f.cls, f.own, f.nrec
 		}
 		r.rec.Emit(e)
 	}
@@ -734,7 +978,7 @@ func Run(sc *Script) []trace.Event {
 	}
 	var wg sync.WaitGroup
 	startAll := make(chan struct{})
-	if sc.Kind != "c06" {
+	if !concurrent {
 		close(startAll)
 	}
 	for _, g := range gs {
@@ -746,16 +990,22 @@ func Run(sc *Script) []trace.Event {
 				if op.SleepMs > 0 {
 					time.Sleep(time.Duration(op.SleepMs) * time.Millisecond)
 				}
+				if g := r.gates[op.AfterPiece]; g != nil {
+					select {
+					case <-g:
+					case <-time.After(2 * time.Second):
+					}
+				}
 				r.rec.Emit(trace.Event{"ev": "opbegin", "o": op.O, "kind": op.Kind})
 				res := r.timed(conn, r.cl, op)
 				emitEnd(op, res)
 			}
 		}(byG[g])
-		if sc.Kind != "c06" {
+		if !concurrent {
 			wg.Wait() // sequential scenarios: one goroutine after the other
 		}
 	}
-	if sc.Kind == "c06" {
+	if concurrent {
 		close(startAll)
 	}
 	wg.Wait()
